@@ -41,8 +41,18 @@
 (*                         -> ImplRefines violated,                        *)
 (*   StaleKey      = TRUE  (an assignment keeps the memoised comparison    *)
 (*                         key of the old version) -> KeyFresh violated.   *)
-(* All four were run and do make TLC report the violation (c14.py runs     *)
+(*   CopySharesParts = TRUE (Version(v) shares its mutable parts with v:   *)
+(*                         an assignment to one rewrites the other)        *)
+(*                         -> CopyIndependent violated.                    *)
+(* All five were run and do make TLC report the violation (c14.py runs     *)
 (* them in every check and fails with exit 2 if one of them passes).       *)
+(*                                                                         *)
+(* Object store with two objects: Copy (Version(v), copy.copy, pickle ...) *)
+(* makes a second object; `kept` is the one of the pair the history does   *)
+(* NOT continue on.  CopyIndependent: whatever is later done to `obj`      *)
+(* (accepted, rejected, unspecified), `kept` stays exactly what it was.    *)
+(* MC_VersionString_pair*.cfg explores all (obj, kept) pairs; the emitting *)
+(* LTS configuration identifies states by obj alone (kept is history).     *)
 (*                                                                         *)
 (* The object carries a fifth, derived component `key`: the parsed tuple   *)
 (* its comparisons and its hash work on (<<epoch, upstream, revision>>).   *)
@@ -60,13 +70,14 @@ CONSTANTS Alphabet,       \* bnd: code points strings are built from
           AssignValues,   \* lts: values offered to the component assignments (Absent = None)
           Emit,           \* TRUE: print CASE / EDGE lines
           DollarAnchor, UnicodeDigits, NoRollback,     \* negative controls, FALSE in property runs
-          StaleKey
+          StaleKey, CopySharesParts
 
 VARIABLES inp,            \* bnd: the string under construction (<<>> in lts)
-          obj,            \* the version object
+          obj,            \* the version object the history continues on
+          kept,           \* the other object of the last Copy (NoObj before the first Copy)
           res             \* outcome of the last call: "none" "ok" "ValueError" "unspec"
 
-vars == <<inp, obj, res>>
+vars == <<inp, obj, kept, res>>
 
 ----------------------------------------------------------------------------
 \* code points and classes
@@ -192,12 +203,13 @@ ImplAssign(o, comp, v) ==
 CaseLine(s) == Emit => PrintT(<<"CASE", ToJson([s |-> s, valid |-> Valid(s), unspec |-> Unspec(s), d |-> Decompose(s)])>>)
 Built(s)    == LET o == FullOutcome(NoObj, s) IN obj' = o.obj /\ res' = o.res
 
-BndInit == /\ inp = <<>>
+BndInit == /\ inp = <<>> /\ kept = NoObj
            /\ obj = FullOutcome(NoObj, <<>>).obj /\ res = FullOutcome(NoObj, <<>>).res
            /\ CaseLine(<<>>)
 BndNext == /\ Len(inp) < MaxLen
            /\ \E c \in Alphabet : inp' = Append(inp, c)
            /\ Built(inp')
+           /\ UNCHANGED kept
            /\ CaseLine(inp')
 BndSpec == BndInit /\ [][BndNext]_vars
 
@@ -212,10 +224,12 @@ ZonesDisjoint  == ~(Valid(inp) /\ Unspec(inp))
 Edge(op, v, o) == Emit => PrintT(<<"EDGE", ToJson([from |-> obj, op |-> op, args |-> <<v>>, res |-> o.res, to |-> o.obj])>>)
 \* StaleKey (negative control): an assignment on an existing object keeps the old memoised key
 Apply(op, v, o) == /\ obj' = IF StaleKey /\ obj # NoObj /\ op # "copy" THEN [o.obj EXCEPT !.key = obj.key] ELSE o.obj
+                   \* CopySharesParts (negative control): the two objects of a Copy share their parts
+                   /\ kept' = IF CopySharesParts /\ kept # NoObj THEN obj' ELSE kept
                    /\ res' = o.res /\ UNCHANGED inp /\ Edge(op, v, o)
 Fits(s) == Len(s) <= MaxLen
 
-LtsInit == inp = <<>> /\ obj = NoObj /\ res = "none"
+LtsInit == inp = <<>> /\ obj = NoObj /\ kept = NoObj /\ res = "none"
 
 Construct(s)   == obj = NoObj /\ Apply("construct", s, FullOutcome(NoObj, s))
 SetFull(s)     == obj # NoObj /\ Apply("full", s, FullOutcome(obj, s))
@@ -223,14 +237,18 @@ SetComp(c, v)  == obj # NoObj /\ Fits(AssignText(obj, c, v)) /\ Apply(c, v, Assi
 SetEpoch(v)    == SetComp("epoch", v)
 SetUpstream(v) == SetComp("upstream", v)
 SetRevision(v) == SetComp("revision", v)
-\* Version(v): a second object built from the first has the same state
-Copy           == obj # NoObj /\ Apply("copy", Absent, [res |-> "ok", obj |-> obj])
+\* Version(v) / copy.copy(v) / ...: a second object with the same state; the pair is (obj, kept),
+\* the history continues on either of the two (they are equal here; the binding chooses)
+Copy           == /\ obj # NoObj
+                  /\ obj' = obj /\ kept' = obj /\ res' = "ok" /\ UNCHANGED inp
+                  /\ Edge("copy", Absent, [res |-> "ok", obj |-> obj])
 
 LtsNext == \/ \E s \in StartStrings : Construct(s) \/ SetFull(s)
            \/ \E v \in AssignValues : SetEpoch(v) \/ SetUpstream(v) \/ SetRevision(v)
            \/ Copy
 LtsSpec == LtsInit /\ [][LtsNext]_vars
-ObjView == obj              \* res is an output, inp is constant here
+ObjView == obj              \* res is an output, inp is constant here, kept is history (see PairView)
+PairView == <<obj, kept>>
 
 \* every object that exists is the decomposition of its own valid, specified full text
 ObjConsistent == obj # NoObj => /\ Valid(obj.full) /\ ~Unspec(obj.full)
@@ -241,6 +259,10 @@ KeyFresh      == obj # NoObj => obj.key = VKey(obj.full)
 \* "either the recomposed valid version or ValueError leaving the object exactly as it was"
 AssignOrRollback == [][\/ res' = "ok" /\ Valid(obj'.full) /\ Attrs(obj') = Attrs(ObjOf(obj'.full))
                        \/ res' \in {"ValueError", "unspec"} /\ Attrs(obj') = Attrs(obj)]_vars
+\* the retained object of a Copy is a version of its own ...
+KeptConsistent  == kept # NoObj => Valid(kept.full) /\ kept = ObjOf(kept.full)
+\* ... and nothing that is done to the other object changes it: kept only changes by a Copy
+CopyIndependent == [][kept' # kept => (kept' = obj /\ obj' = obj)]_vars
 \* the transcription of the code agrees with the reference wherever the statement decides
 ImplRefines ==
     obj # NoObj =>
